@@ -21,7 +21,7 @@ use crate::common::*;
 
 /// (type or "Type.field", name) pairs of S1 whose Rust type is MaybeUndefined<T>.
 fn maybe_undefined(owner: &str, name: &str) -> bool {
-    matches!((owner, name), ("Query.echoMaybe", "v") | ("Filter", "note"))
+    matches!((owner, name), ("Query.echoMaybe", "v") | ("Filter", "note")) || vh_schema::genrt::mu_by_name(owner, name)
 }
 
 /// Project a coerced value through what a static Rust type of that GraphQL type can see.
@@ -146,6 +146,8 @@ pub fn main() {
     let shards = n_shards(&run);
     let run = &run;
     crate::witness::c06(run);
+    let statics = static_family(run);
+    let statics = &statics;
     std::thread::scope(|sc| {
         for shard in 0..shards {
             sc.spawn(move || {
@@ -157,7 +159,11 @@ pub fn main() {
                 while i < cases {
                     i += shards;
                     let (ts, schema) = if r.bool() {
-                        (s1ts.clone(), s1schema.clone())
+                        // static flavour: S1, or (a third of these) a member of the generated derive-built family
+                        match pick_family(run, statics, &mut r) {
+                            Some(m) => (m.ts.clone(), m.schema.clone()),
+                            None => (s1ts.clone(), s1schema.clone()),
+                        }
                     } else {
                         if dynamic.is_none() || r.chance(1, 10) {
                             let ts = Arc::new(gen_type_system(&mut r, &ts_opts(run)));
@@ -188,6 +194,7 @@ pub fn main() {
         }
     });
     hostile_values_without_validation(run);
+    run.extra("static_schemas", static_family_extra(statics));
     run.finish_code_exit();
 }
 
@@ -243,22 +250,44 @@ fn hostile_values_without_validation(run: &Run) {
                     };
                     // an edit of one occurrence of a response key that is written twice makes the document
                     // invalid in another way (fields that cannot merge): not this phase's subject
-                    {
-                        let probe = Case::new(ts.clone(), mgd.clone(), world_for("static", 1), false);
-                        if probe.reference().merged_groups > 0 {
-                            run.count("hostile_skipped_merged_key", 1);
-                            continue;
-                        }
+                    let world = world_for("static", r.next_u64());
+                    let case = Case::new(ts.clone(), mgd, world, r.bool());
+                    // judged on the world the case runs in (a selection set below a null parent is never collected)
+                    if case.reference().merged_groups > 0 || textually_repeated_key(&case.gd.doc) {
+                        run.count("hostile_skipped_merged_key", 1);
+                        continue;
                     }
                     run.count("hostile_values_executed_without_validation", 1);
                     run.count(&format!("hostile_{name}"), 1);
-                    let world = world_for("static", r.next_u64());
-                    let case = Case::new(ts.clone(), mgd, world, r.bool());
                     one(run, &fast, &case);
                 }
             });
         }
     });
+}
+
+/// Some selection set of the document writes the same response key twice (whether or not it is executed).
+fn textually_repeated_key(doc: &vh_model::doc::Doc) -> bool {
+    fn set(sels: &[vh_model::doc::Sel]) -> bool {
+        let mut keys = std::collections::BTreeSet::new();
+        for s in sels {
+            match s {
+                vh_model::doc::Sel::Field(f) => {
+                    if !keys.insert(f.key().to_string()) || set(&f.sel) {
+                        return true;
+                    }
+                }
+                vh_model::doc::Sel::Inline { sel, .. } => {
+                    if set(sel) {
+                        return true;
+                    }
+                }
+                _ => {}
+            }
+        }
+        false
+    }
+    doc.ops.iter().any(|o| set(&o.sel)) || doc.frags.iter().any(|f| set(&f.sel))
 }
 
 /// Give a oneOf input-object literal a second member (valid on its own).
